@@ -181,7 +181,8 @@ def bind_program(sig, call):
     if call['star'] is not None:
         args.append('*[' + ', '.join(str(v) for v in call['star']) + ']')
     if call['kw'] is not None:
-        args.append('**{' + ', '.join(f'"{nm(k)}": {v}' for k, v in call['kw']) + '}')
+        flags = call.get('kw_is_str') or [True] * len(call['kw'])
+        args.append('**{' + ', '.join((f'"{nm(k)}": {v}' if isstr else f'{7000 + j}: {v}') for j, ((k, v), isstr) in enumerate(zip(call['kw'], flags))) + '}')
     body = ', '.join(f'p{i}' for i in range(n))
     return f'def f({", ".join(ps)}):\n    return [{body}]\n\ndef g():\n    return f({", ".join(args)})\n\ng()\n'
 
@@ -317,8 +318,33 @@ def run_bind(sess):
     sess.notes.add(f'C08.bind runs are spread over {workers} forked worker processes (solver time in the evidence is the sum over workers)')
 
 
+def run_builder(sess):
+    from . import c08_bind as B
+    tmax = 3 if sess.tier == 'quick' else 4
+    for has_args in (False, True):
+        for has_kwargs in (False, True):
+            t1 = time.time()
+            ob = Obligation(f'C08.builder[args={has_args},kwargs={has_kwargs}]', 'ParametersSpecBuilder (the call sequence of ParametersSpec::new_parts) produces the spec the binder obligations assume: kinds in order, num_positional, num_positional_only, *args / **kwargs indices, and a names map holding exactly the parameters that are not positional-only',
+                            f'every split of up to {tmax} regular parameters into positional-only / positional-or-named / named-only; kinds (required / optional / defaulted) solver-chosen; names pairwise different')
+            inst = 0
+            try:
+                for po in range(tmax + 1):
+                    for pn in range(tmax + 1 - po):
+                        for no in range(tmax + 1 - po - pn):
+                            inst += B.run_builder(sess, ob, po, pn, has_args, no, has_kwargs)
+            except (Unsupported, LookupError, StopIteration, AttributeError) as e:
+                ob.inconclusive(f'unsupported: {type(e).__name__} {e}')
+            ob.sample = {'instances': inst}
+            ob.twin = 'sat' if inst else 'unsat'
+            if not inst:
+                ob.inconclusive('no instance reached (vacuity)')
+            ob.wall_s = time.time() - t1
+            sess.add(ob)
+
+
 def run(sess):
     run_bind(sess)
+    run_builder(sess)
     variants = enum_variants(AST, 'ParameterP')
     mexec.ENUMS['ParameterP'] = variants
     mexec.ENUMS['State'] = ['Normal', 'SeenSlash', 'SeenStar', 'SeenStarStar']
@@ -598,7 +624,7 @@ def validate(sess, rp):
 def replay_bind(w, rp):
     from .c08_bind import py_bind
     sig, call = w['sig'], w['call']
-    call = {'pos': call['pos'], 'named': [tuple(x) for x in call['named']], 'star': call['star'], 'kw': None if call['kw'] is None else [tuple(x) for x in call['kw']]}
+    call = {'pos': call['pos'], 'named': [tuple(x) for x in call['named']], 'star': call['star'], 'kw': None if call['kw'] is None else [tuple(x) for x in call['kw']], 'kw_is_str': call.get('kw_is_str')}
     prog = bind_program(sig, call)
     if prog is None or not valid_sig(sig):
         return {'reproduced': False, 'role': 'argument binding', 'detail': f'signature {sig} cannot be written as a def (native-only optional parameter or outside the builder invariant)', 'cases': []}
@@ -611,9 +637,46 @@ def replay_bind(w, rp):
     return {'reproduced': got != exp, 'role': 'argument binding', 'detail': f'{prog.splitlines()[0]} ; {prog.splitlines()[4].strip()}: natively {got if got is not None else "fails"}, Python rules give {exp if exp is not None else "an error"}', 'cases': [prog]}
 
 
+def replay_builder(w, rp):
+    """a def with the witness's parameter split, called in the ways that tell the three groups apart"""
+    from .c08_bind import py_bind
+    po, pn, has_args, no, has_kwargs = w['shape']
+    kinds = [k if k != 'Optional' else 'Defaulted' for k in w.get('kinds', ['Required'] * (po + pn + no))]
+    # Python: no required positional parameter after a defaulted one
+    seen = False
+    for i in range(po + pn):
+        if kinds[i] == 'Defaulted':
+            seen = True
+        elif seen:
+            kinds[i] = 'Defaulted'
+    layout = kinds[:po + pn] + (['Args'] if has_args else []) + kinds[po + pn:] + (['KWargs'] if has_kwargs else [])
+    sig = {'kinds': layout, 'npos': po + pn, 'nposonly': po}
+    n = len(layout)
+    regular = [i for i in range(n) if layout[i] in ('Required', 'Defaulted')]
+    calls = []
+    # all positional; all by name; positional-only ones positionally and the rest by name; one extra positional; one unknown name
+    calls.append({'pos': [100 + j for j in range(po + pn)], 'named': [(i, 200 + i) for i in regular if i >= po + pn], 'star': None, 'kw': None})
+    calls.append({'pos': [], 'named': [(i, 200 + i) for i in regular], 'star': None, 'kw': None})
+    calls.append({'pos': [100 + j for j in range(po)], 'named': [(i, 200 + i) for i in regular if i >= po], 'star': None, 'kw': None})
+    calls.append({'pos': [100 + j for j in range(po + pn + 1)], 'named': [(i, 200 + i) for i in regular if i >= po + pn], 'star': None, 'kw': None})
+    calls.append({'pos': [100 + j for j in range(po + pn)], 'named': [(i, 200 + i) for i in regular if i >= po + pn] + [(n, 299)], 'star': None, 'kw': None})
+    calls.append({'pos': [100 + j for j in range(po)], 'named': [], 'star': [300 + j for j in range(pn)], 'kw': [(i, 400 + i) for i in regular if i >= po + pn]})
+    progs = [bind_program(sig, c) for c in calls]
+    res = rp.run([{'kind': 'eval', 'dialect': 'extended', 'program': pr} for pr in progs], 'dev')
+    notes = []
+    for c, pr, r in zip(calls, progs, res):
+        want = py_bind(sig, c)
+        exp = None if want is None else bind_repr(sig, want)
+        if 'panic' in r or 'abort' in r or r.get('ok') != exp:
+            notes.append(f'{pr.splitlines()[0]} ; {pr.splitlines()[4].strip()}: natively {r.get("ok", "fails")}, Python rules give {exp if exp is not None else "an error"}')
+    return {'reproduced': bool(notes), 'role': 'signature builder', 'detail': '; '.join(notes)[:600] or 'the probing calls behave as the Python rules say', 'cases': progs[:3]}
+
+
 def replay_witness(w, rp):
     if w['kind'] == 'bind':
         return replay_bind(w, rp)
+    if w['kind'] == 'builder':
+        return replay_builder(w, rp)
     if w['kind'] == 'call_args':
         src = call_src(w['args'], w['names'])
         res = rp.run([{'kind': 'parse', 'dialect': 'extended', 'src': src}], 'dev')[0]
